@@ -1,3 +1,69 @@
-From DI Require Import PyStr Debcon.
-Theorem C08_placeholder : True. Proof. exact I. Qed.
-Print Assumptions C08_placeholder.
+(* C08 - The header-style control parser drops no content; duplicates merge
+   losslessly (partial: conservation is proved at the level of characters for the
+   cutting of the text into lines and into header lines / separator / body, and for
+   every path that stores the whole text under "unknown"; the merge of repeated names
+   is proved for single-line values; that every *word* of a header line reaches a name
+   or a value goes through the model of the standard email package and is decided by
+   co-execution and by the executable statement). *)
+From Coq Require Import String.
+From Coq Require Import NArith List Bool.
+From DI Require Import Result PyStr Email Debcon DebconFacts.
+Import ListNotations.
+Open Scope N_scope.
+
+(* cutting the text into lines loses nothing *)
+Theorem C08_lines_conserve_text : forall t, concat (crack t) = t.
+Proof. exact crack_concat. Qed.
+Print Assumptions C08_lines_conserve_text.
+
+(* header lines, one dropped empty separator line, and the body make up the text *)
+Theorem C08_headers_and_body_conserve_text : forall ls,
+  let '(h, b, d) := split_headers ls in
+  exists sep, concat ls = concat h ++ sep ++ concat b /\ (sep = [] \/ starts_nl sep = true).
+Proof. exact split_headers_concat. Qed.
+Print Assumptions C08_headers_and_body_conserve_text.
+
+(* a paragraph that cannot be read as fields (no field, a defect, a mailbox envelope line, a MIME
+   container) is returned whole under "unknown" *)
+Theorem C08_unknown_keeps_text : forall t, t <> [] ->
+  (m_items (parse_message t) = [] \/ m_defects (parse_message t) = true \/
+   m_unixfrom (parse_message t) = true \/ m_container (parse_message t) = true) ->
+  get_paragraph_data t = [(unknown_key, t)].
+Proof. exact unknown_keeps_text. Qed.
+Print Assumptions C08_unknown_keeps_text.
+
+(* merging: a repeated name keeps every distinct single-line value under the first occurrence,
+   LF-separated, in order of first appearance; a value already present is skipped, never replacing
+   what was merged *)
+Theorem C08_merge_single_line : forall data k vs v,
+  key_ok data k vs -> single_line v ->
+  let data' := match dict_get k data with
+               | Some existing =>
+                   if mem_str v (splitlines existing) then data
+                   else dict_put k (join [10] (splitlines existing ++ [v])) data
+               | None => dict_put k v data
+               end in
+  key_ok data' k (if mem_str v vs then vs else vs ++ [v]).
+Proof. exact merge_one. Qed.
+Print Assumptions C08_merge_single_line.
+
+Theorem C08_merge_step : forall name value rest data,
+  let k := strip (lower_ascii name) in
+  let v := strip value in
+  merge_items ((name, value) :: rest) data =
+  match dict_get k data with
+  | Some existing =>
+      if mem_str v (splitlines existing) then merge_items rest data
+      else merge_items rest (dict_put k (join [10] (splitlines existing ++ [v])) data)
+  | None => merge_items rest (dict_put k v data)
+  end.
+Proof. exact merge_step. Qed.
+Print Assumptions C08_merge_step.
+
+Example C08_a_b_a : get_paragraph_data (lit "a: 1" ++ [10] ++ lit "a: 2" ++ [10] ++ lit "a: 1" ++ [10] ++ lit "B: x" ++ [10]) =
+  [(lit "a", lit "1" ++ [10] ++ lit "2"); (lit "b", lit "x")].
+Proof. vm_compute. reflexivity. Qed.
+
+Example C08_from_line_kept : get_paragraph_data (lit "From foo" ++ [10] ++ lit "a: 1" ++ [10]) =
+  [(lit "unknown", lit "From foo" ++ [10] ++ lit "a: 1" ++ [10])].
+Proof. vm_compute. reflexivity. Qed.
